@@ -13,6 +13,16 @@ fn fault_scenario(name: &str, fam: (crate::core::Config, Vec<crate::core::Tx>, c
 	s
 }
 
+/// one hash column; a key overwritten with another value (other size class) and a second key
+fn overwrite_family() -> (crate::core::Config, Vec<crate::core::Tx>, crate::core::Tx) {
+	use crate::core::*;
+	let k = |i: u32| B::pat(6, 2100 + i);
+	let cfg = Config::new(vec![ColSpec::hash()]);
+	let alpha: Vec<Tx> = vec![vec![(0, Op::Set(k(1), B::pat(5, 1)))], vec![(0, Op::Set(k(2), B::pat(60, 2)))], vec![(0, Op::Set(k(2), B::pat(61, 3)))]];
+	let suffix: Tx = vec![(0, Op::Set(k(9), B::pat(60, 9)))];
+	(cfg, alpha, suffix)
+}
+
 pub fn scenarios(tier: &str) -> Vec<Scenario> {
 	if tier == "thorough" {
 		vec![
@@ -21,7 +31,7 @@ pub fn scenarios(tier: &str) -> Vec<Scenario> {
 			fault_scenario("faults/rc+tree/n2", rc_tree_family(), 2, 1, true),
 		]
 	} else {
-		vec![fault_scenario("faults/hash/n2", small_family(), 2, 1, false), fault_scenario("faults/hash+btree/n1", kv_family(), 1, 1, false), fault_scenario("faults/rc+tree/n1", rc_tree_family(), 1, 1, true)]
+		vec![fault_scenario("faults/hash/n2", small_family(), 2, 1, false), fault_scenario("faults/hash-overwrite/n3", overwrite_family(), 3, 0, false), fault_scenario("faults/hash+btree/n1", kv_family(), 1, 1, false), fault_scenario("faults/rc+tree/n1", rc_tree_family(), 1, 1, true)]
 	}
 }
 
